@@ -1,13 +1,41 @@
 import Drv.RecvCommon
+import OpcuaModel.Model.RecvTok
 /-
   Driver for C10:
     sealed <maxChunkCount> <maxMessageSize> <ct>:<seq>:<req>:<hex> | x …   → one result per frame (`rej` = rejected by readChunk)
+    tokrun <maxChunkCount> <maxMessageSize> <in>…   in = f:<chan>:<key>:<ct>:<seq>:<req>:<hex> | o:<chan>:<tok>:<key> | e:<chan>:<tok>:<key>
+                                                     → per frame: rej | result as in recv
     recv / merge as in C12
 -/
 open Opcua Opcua.Recv
 
+def parseIn (s : String) : Option RecvTok.In :=
+  match s.splitOn ":" with
+  | ["f", c, k, ct, sq, rq, hx] => do
+    let ch ← parseChunk (":".intercalate [ct, sq, rq, hx])
+    pure (.frame ⟨← c.toNat?, ← k.toNat?, ch⟩)
+  | ["o", c, t, k] => do pure (.table (.opn ⟨← c.toNat?, ← t.toNat?, ← k.toNat?⟩))
+  | ["e", c, t, k] => do pure (.table (.expire ⟨← c.toNat?, ← t.toNat?, ← k.toNat?⟩))
+  | _ => none
+
+def handleTokrun : List String → String
+  | mc :: mm :: ins =>
+    match mc.toNat?, mm.toNat?, ins.mapM parseIn with
+    | some mc, some mm, some ins =>
+      let cfg : Cfg := ⟨mc, mm, Gen.RecvFacts.chunkLimitZeroUnlimited, Gen.RecvFacts.sizeLimitZeroUnlimited⟩
+      let outs := RecvTok.run cfg ⟨[], []⟩ ins
+      let frames := ins.zip outs |>.filterMap fun (i, o) =>
+        match i, o with
+        | .frame _, none => some "rej"
+        | .frame _, some o => some o.text
+        | _, _ => none
+      " ".intercalate frames
+    | _, _, _ => "bad-op"
+  | _ => "bad-op"
+
 def handle : List String → String
   | "sealed" :: r => handleSealed r
+  | "tokrun" :: r => handleTokrun r
   | "merge" :: r => handleMerge r
   | "recv" :: r => handleRecv r
   | _ => "bad-op"
